@@ -811,6 +811,64 @@ def _expand_table_code(fn, allow_unmarked: bool, report) -> int:
     alias_pass(fn.body)
     return done
 
+
+# --------------------------------------------------------------------------------------------------
+# N5: match statements over literal patterns -> if / elif chains
+
+def _pattern_test(subject: ast.AST, pat: ast.pattern):
+    """test expression equivalent to matching `subject` against a literal / singleton / or-of-literals / wildcard pattern;
+    returns (test or None for 'always', ok)"""
+    if isinstance(pat, ast.MatchValue) and isinstance(pat.value, (ast.Constant, ast.UnaryOp)):
+        return ast.Compare(left=copy.deepcopy(subject), ops=[ast.Eq()], comparators=[pat.value]), True
+    if isinstance(pat, ast.MatchSingleton):
+        return ast.Compare(left=copy.deepcopy(subject), ops=[ast.Is()], comparators=[ast.Constant(value=pat.value)]), True
+    if isinstance(pat, ast.MatchAs) and pat.pattern is None and pat.name is None:
+        return None, True
+    if isinstance(pat, ast.MatchOr):
+        tests = []
+        for p_ in pat.patterns:
+            t, ok = _pattern_test(subject, p_)
+            if not ok or t is None:
+                return None, False
+            tests.append(t)
+        return ast.BoolOp(op=ast.Or(), values=tests), True
+    return None, False
+
+
+def _lower_match(fn) -> int:
+    n = 0
+    for blk in list(_blocks(fn)):
+        i = 0
+        while i < len(blk):
+            st = blk[i]
+            if isinstance(st, ast.Match) and _simple_arg(st.subject):
+                chain = []
+                ok = True
+                for case in st.cases:
+                    t, good = _pattern_test(st.subject, case.pattern)
+                    if not good:
+                        ok = False
+                        break
+                    if case.guard is not None:
+                        t = case.guard if t is None else ast.BoolOp(op=ast.And(), values=[t, case.guard])
+                    chain.append((t, case.body))
+                if ok and chain:
+                    # build from the last case backwards; a case without test (wildcard) ends the chain
+                    orelse: list = []
+                    for t, body in reversed(chain):
+                        if t is None:
+                            orelse = list(body)
+                        else:
+                            orelse = [ast.If(test=t, body=list(body), orelse=orelse)]
+                    for x in orelse:
+                        ast.copy_location(x, st)
+                        ast.fix_missing_locations(x)
+                    blk[i:i + 1] = orelse
+                    n += 1
+                    continue
+            i += 1
+    return n
+
 # --------------------------------------------------------------------------------------------------
 # N3: parameters that nobody passes
 
@@ -2144,6 +2202,16 @@ def normalise(modules: dict, pkg: str = "rtflite") -> dict:
         ref_funcs[name] = _index_funcs(rt)
         ref_trees[name] = rt
     _recover_function_names(modules, ref_trees, report)
+    # N5: `match` over literal patterns -> if/elif (only where the reference function has no match statement)
+    for name, mi in modules.items():
+        reff = ref_funcs.get(name, {})
+        for q, fn in _index_funcs(mi.tree).items():
+            if any(isinstance(n, ast.Match) for n in ast.walk(fn)):
+                rf = reff.get(q)
+                if rf is None or not any(isinstance(n, ast.Match) for n in ast.walk(rf)):
+                    k = _lower_match(fn)
+                    if k:
+                        report["match_lowered"] = report.get("match_lowered", 0) + k
     touched = set()
     touched |= _propagate_constants(modules, ref_names, report)
     touched |= _specialise_defaults(modules, ref_funcs, report)
